@@ -45,6 +45,9 @@ type C20Scenario struct {
 	Plan      FaultPlan  `json:"plan"`
 	TimeoutMs int        `json:"timeout_ms,omitempty"`
 	OTel      bool       `json:"otel"` // real OpenTelemetry implementation on SDK recorders instead of the token recorder
+	// OTelSpans: 0 every span sampled and recorded; 1 the sampler drops every trace (non-recording spans);
+	// 2 metrics only (no tracer provider configured). The counters must be exact in all three.
+	OTelSpans int `json:"otel_spans,omitempty"`
 }
 
 func genC20(rt *rapid.T) core.Scenario {
@@ -87,6 +90,9 @@ func genC20(rt *rapid.T) core.Scenario {
 		}
 	}
 	sc.OTel = rapid.Bool().Draw(rt, "otel")
+	if sc.OTel {
+		sc.OTelSpans = rapid.SampledFrom([]int{0, 0, 0, 1, 2}).Draw(rt, "otelSpans")
+	}
 	sc.Tape = core.DrawTape(rt, 400)
 	return sc
 }
@@ -191,10 +197,18 @@ func (sc *C20Scenario) Execute(t *testing.T) *core.Outcome {
 		var opts []eventbus.Option
 		if sc.OTel {
 			sr = tracetest.NewSpanRecorder()
-			tp := sdktrace.NewTracerProvider(sdktrace.WithSpanProcessor(sr))
+			tpOpts := []sdktrace.TracerProviderOption{sdktrace.WithSpanProcessor(sr)}
+			if sc.OTelSpans == 1 {
+				tpOpts = append(tpOpts, sdktrace.WithSampler(sdktrace.NeverSample()))
+			}
+			tp := sdktrace.NewTracerProvider(tpOpts...)
 			reader = sdkmetric.NewManualReader()
 			mp := sdkmetric.NewMeterProvider(sdkmetric.WithReader(reader))
-			o, err := ebuotel.New(ebuotel.WithTracerProvider(tp), ebuotel.WithMeterProvider(mp))
+			oo := []ebuotel.Option{ebuotel.WithMeterProvider(mp)}
+			if sc.OTelSpans != 2 {
+				oo = append(oo, ebuotel.WithTracerProvider(tp))
+			}
+			o, err := ebuotel.New(oo...)
 			if err != nil {
 				out.HarnessErr = err.Error()
 				return
@@ -454,6 +468,21 @@ func sumCounter(rm *metricdata.ResourceMetrics, name string) int64 {
 }
 
 func (sc *C20Scenario) checkOTel(out *core.Outcome, sr *tracetest.SpanRecorder, rm *metricdata.ResourceMetrics, invs []*c20Inv, nPubs, nPanics, nAppend, nAppendFail int) {
+	check := func(what string, got, want int) {
+		if got != want {
+			out.V("otel-count", "%s: %d, true number %d (span mode %d)", what, got, want, sc.OTelSpans)
+		}
+	}
+	defer func() {
+		check("counter eventbus.publish.count", int(sumCounter(rm, "eventbus.publish.count")), nPubs)
+		check("counter eventbus.handler.count", int(sumCounter(rm, "eventbus.handler.count")), len(invs))
+		check("counter eventbus.handler.errors", int(sumCounter(rm, "eventbus.handler.errors")), nPanics)
+		check("counter eventbus.persist.count", int(sumCounter(rm, "eventbus.persist.count")), nAppend)
+		check("counter eventbus.persist.errors", int(sumCounter(rm, "eventbus.persist.errors")), nAppendFail)
+	}()
+	if sc.OTelSpans != 0 {
+		return // no recorded spans to inspect: only the counters
+	}
 	started, ended := sr.Started(), sr.Ended()
 	endCount := map[trace.SpanID]int{}
 	for _, s := range ended {
@@ -497,21 +526,11 @@ func (sc *C20Scenario) checkOTel(out *core.Outcome, sr *tracetest.SpanRecorder, 
 	if len(ended) != len(started) {
 		out.V("span-not-ended-once", "%d spans started, %d ended", len(started), len(ended))
 	}
-	check := func(what string, got, want int) {
-		if got != want {
-			out.V("otel-count", "%s: %d, true number %d", what, got, want)
-		}
-	}
 	check("publish spans", kinds["publish"], nPubs)
 	check("handler spans", kinds["handler"], len(invs))
 	check("persist spans", kinds["persist"], nAppend)
 	check("handler spans with error status", errSpans["handler"], nPanics)
 	check("persist spans with error status", errSpans["persist"], nAppendFail)
-	check("counter eventbus.publish.count", int(sumCounter(rm, "eventbus.publish.count")), nPubs)
-	check("counter eventbus.handler.count", int(sumCounter(rm, "eventbus.handler.count")), len(invs))
-	check("counter eventbus.handler.errors", int(sumCounter(rm, "eventbus.handler.errors")), nPanics)
-	check("counter eventbus.persist.count", int(sumCounter(rm, "eventbus.persist.count")), nAppend)
-	check("counter eventbus.persist.errors", int(sumCounter(rm, "eventbus.persist.errors")), nAppendFail)
 }
 
 var propC20 = &core.Property{ID: "C20", Gen: genC20, New: func() core.Scenario { return &C20Scenario{} }}
